@@ -117,6 +117,12 @@ def _created_delivered(ex, st, k):
         if len(meta) == 1 and len(sets) == 1:
             g = z3.And(g, z3.BoolVal(meta[0].recv is not None and meta[0].recv.t.eq(sets[0].recv.t)),
                        eq(meta[0].args[1], ex.opaque_field_at(st, meta[0], ct, 'cacheable')))
+        for attr in ('timestamp', 'size'):
+            up = [e for e in evs_ if e.name == 'setattr:' + attr]
+            g = z3.And(g, ex.truth(st, cont[0].result) == z3.BoolVal(len(up) == 1))
+            if len(up) == 1 and len(sets) == 1:
+                g = z3.And(g, z3.BoolVal(up[0].recv is not None and up[0].recv.t.eq(sets[0].recv.t)),
+                           eq(up[0].args[1], ex.opaque_field_at(st, up[0], ct, attr)))
     yield ('created_tile_is_delivered', g,
            'every created tile whose address was requested hands its image AND its cache info (cacheable, timestamp, size) to the '
            'requested tile')
@@ -304,8 +310,10 @@ contract(C + 'TileCreator._create_bulk_meta_tile', props=['C08', 'C04'],
 
 # ---- create_tiles: every requested tile is covered by exactly one creation request ------------------------------------------------
 def _group_iteration(ex, st, k):
-    """per requested tile: its meta tile is computed from ITS coordinate and joins the work list iff no meta tile with the
-    same bbox is on it already"""
+    """per requested tile: its meta tile is computed from ITS coordinate and joins the work list iff the SAME META TILE is not on it
+    already.  What identifies a meta tile is its main tile (the contract of MetaGrid.meta_tile / MetaTile.main_tile_coord) - not its
+    bbox: where a large meta_buffer is truncated at the grid border different meta tiles have the same bbox, and de-duplicating
+    by bbox left whole tiles of the request uncreated (S46; the first version of this clause had been read off that code)"""
     import z3
     from pyvc.values import eq
     evs_ = _iter_events(st)
@@ -318,13 +326,13 @@ def _group_iteration(ex, st, k):
     goal = z3.BoolVal(bool(ok))
     if ok:
         coord = ex.opaque_field_at(st, mt[0], tile, 'coord')
-        bbox = ex.opaque_field(st, mt[0].result, 'bbox')
+        ident = ex.opaque_field(st, mt[0].result, 'main_tile_coord')
         goal = z3.And(goal, eq(mt[0].args[-1], coord), ex.truth(st, cont[0].result) == z3.BoolVal(len(app) == 0),
-                      eq(cont[0].args[1], bbox))
+                      eq(cont[0].args[1], ident))
         if app:
-            goal = z3.And(goal, z3.BoolVal(app[0].args[-1] is mt[0].result), eq(add[0].args[-1], bbox))
+            goal = z3.And(goal, z3.BoolVal(app[0].args[-1] is mt[0].result), eq(add[0].args[-1], ident))
     yield ('tile_joins_one_meta_request', goal,
-           'meta_grid.meta_tile(tile.coord) is appended to the work list exactly when its bbox is not yet in the seen set '
+           'meta_grid.meta_tile(tile.coord) is appended to the work list exactly when its main tile is not yet in the seen set '
            '(then it is added to the set): one upstream request per distinct meta tile, none left out')
 
 
@@ -363,10 +371,14 @@ def _dispatch(ex, st, post, result):
         goal = z3.And(goal, has_src)
     if singles:
         goal = z3.And(goal, z3.Not(has_meta))
+    # bulk mode exists for sources that deliver single tiles only (tile sources, tiled_only caches): a meta tile sized map request
+    # - which the request-minimising meta tile is - cannot be answered by them, so bulk mode always goes through the work list
+    # (S45: with both options set every multi-tile request failed; the strategy clause had been read off the code)
+    bulk = ex.truth(st, h['bulk_meta_tiles'])
     if one:
-        goal = z3.And(goal, has_meta, mini_cfg, many)
+        goal = z3.And(goal, has_meta, mini_cfg, many, z3.Not(bulk))
     if metas:
-        goal = z3.And(goal, has_meta, z3.Not(z3.And(mini_cfg, many)))
+        goal = z3.And(goal, has_meta, z3.Not(z3.And(mini_cfg, many, z3.Not(bulk))))
     yield ('one_creation_strategy', goal,
            'exactly one strategy handles the whole request: single tiles (all of them), the work list of distinct meta tiles, '
            'or the one request-minimising meta tile computed from all requested coordinates')
@@ -374,11 +386,12 @@ def _dispatch(ex, st, post, result):
 
 contract(C + 'TileCreator.create_tiles', props=['C04', 'C08'],
          types=dict(tiles='list[opaque]'), returns='opaque', default_callee='opaque',
-         opaque_fields={'coord': 'opt[tuple[int,int,int]]', 'bbox': 'opaque', 'minimize_meta_requests': 'opaque'},
-         stable_fields=['coord', 'bbox', 'minimize_meta_requests'],
+         opaque_fields={'coord': 'opt[tuple[int,int,int]]', 'bbox': 'opaque', 'main_tile_coord': 'opaque', 'minimize_meta_requests': 'opaque'},
+         stable_fields=['coord', 'bbox', 'main_tile_coord', 'minimize_meta_requests'],
          opaque_spec={'meta_tile': {'pure': True}, 'minimal_meta_tile': {'pure': True}, '_create_single_tiles': {}, '_create_meta_tiles': {},
                       '_create_meta_tile': {}, 'append': {'pure': True}, 'add': {'pure': True}, 'set': {'pure': True}},
          opaque=['_create_single_tiles', '_create_meta_tiles', '_create_meta_tile'],
          raises={'SourceError': True, 'Exception': True},
-         loops={0: dict(inv=[], types={'meta_tiles': 'opaque', 'meta_bboxes': 'opaque'}, body_trace=[_group_iteration])},
+         loops={0: dict(inv=[], types={'meta_tiles': 'opaque', 'meta_bboxes': 'opaque', 'seen_meta_tiles': 'opaque'},
+                        body_trace=[_group_iteration])},
          trace=[_dispatch])
